@@ -36,6 +36,7 @@ Item : id ` + "`;`" + ` | error ";" | "[" List "]" | str ;
 		{"lexonly", `a : 'a' [ 'b' ] ;
 !sp : ' ' ;
 b : '\x62' '\u0063' | '\U00000064' '\144' ;
+c : 'é' 'a' | '€' 'é'-'ü' | '😀' 'b' ;
 `},
 		{"synonly", `S : a S | b ;
 `},
@@ -162,8 +163,14 @@ func Respellings(toks []Tok) []Respelling {
 		}
 		return " "
 	}
+	identLike := func(k string) bool { return k == "tokId" || k == "prodId" || k == "regDefId" || k == "ignoredTokId" }
 	for g := 0; g <= len(toks); g++ {
-		for _, f := range Fillers {
+		fillers := Fillers
+		// no filler at all where the two neighbours cannot run together (not two identifier-like tokens)
+		if g > 0 && g < len(toks) && !(identLike(toks[g-1].Kind) && identLike(toks[g].Kind)) {
+			fillers = append([]string{""}, Fillers...)
+		}
+		for _, f := range fillers {
 			if f == def(g) {
 				continue
 			}
